@@ -94,7 +94,7 @@ def run(R: vlib.Run):
             N = Nmax if nbits == 8 else min(Nmax, 6)
             x = nprng.integers(0, 1 << min(nbits, 8), (N, nch))
             splits = sorted(nprng.choice(np.arange(1, N), size=nf - 1, replace=False).tolist()) if nf > 1 else []
-            paths = filutil.write_fil_set(os.path.join(d, f"p{nbits}_{nf}"), x, nbits, splits)
+            paths = filutil.write_fil_set(os.path.join(d, f"p{nbits}_{nf}"), x, nbits, splits, vary_header=(nf == 3))
             fil = FilReader(paths)
             for start in range(0, N):
                 for nsamps in range(1, N - start + 1):
@@ -123,7 +123,7 @@ def run(R: vlib.Run):
             N = rng.randrange(8, 60); nf = rng.randrange(1, 4)
             x = nprng.integers(0, 1 << min(nbits, 8), (N, nch))
             splits = sorted(rng.sample(range(1, N), nf - 1)) if nf > 1 else []
-            paths = filutil.write_fil_set(os.path.join(d, "r"), x, nbits, splits)
+            paths = filutil.write_fil_set(os.path.join(d, "r"), x, nbits, splits, vary_header=True)
             fil = FilReader(paths)
             for _ in range(8):
                 start = rng.randrange(0, N); nsamps = rng.randrange(1, N - start + 1)
